@@ -1,6 +1,7 @@
 """C03 (partial): every wrapper store inverts on get what it applied on put, on every put path
 (R-SYM); a saved and loaded store carries every persistent field (R-FLOW); file headers agree
 between writer and reader (R-PAIR)."""
+from vlib import fixtures
 from rules import sym, flow, pair
 from vlib.mir import Fn, op_local
 from vlib.run import Broken
@@ -11,6 +12,7 @@ DZ = "compression::dict_zip::blob_store::DictZipBlobStore::"
 
 def run(ctx):
     fx = ctx.facts("default")
+    fixtures.run(ctx, ['pair'])
     fl = sym.Flow(fx)
     nimpl = 0
     nwrap = 0
